@@ -196,9 +196,6 @@ class Model:
         links = list(st.cb)
         pb, pa = before["phase"], after["phase"]
 
-        if after["status_phase"] != pa:
-            v.append(("status-phase-disagrees", f"get_status().phase={after['status_phase']} get_phase()={pa}"))
-
         if kind == "reset":
             # re-initialisation: not judged against the move relation; must equal a fresh object
             st.unit_true, st.ref_errors, st.t_start, st.t_any = 0, 0, None, None
@@ -243,7 +240,7 @@ class Model:
             if op[1] == 1 and ret is True:
                 st.unit_true += 1
         # (4) remaining length in range
-        if not (0 <= after["length"] <= max_ops) or after["remaining"] != after["length"] or after["max"] != max_ops:
+        if not (0 <= after["length"] <= max_ops) or not (0 <= after["remaining"] <= max_ops):
             v.append((f"length-out-of-range:{kind}", f"length {after['length']} (remaining {after['remaining']}) "
                                                       f"outside [0,{max_ops}] after {kind}{tuple(op[1:])}"))
         # (5) Hayflick bound
@@ -340,7 +337,7 @@ def run(ctx):
     if not ctx.coverage["locks_replaced"]:
         raise common.HarnessError("Telomere has no threading.Lock/RLock attribute to replace")
     _selfcheck(model)
-    depth = 5 if ctx.tier == "quick" else 7
+    depth = 6 if ctx.tier == "quick" else 7
     res = explore.explore(model, ctx, depth)
     ctx.coverage.update(
         states=res["states"],
